@@ -74,7 +74,7 @@ def run(R, tier):
                           'addressing) interleaved with get_cell / get_cells / get_sheet; non-trivial = a cell written twice with different values or '
                           '>= 2 batches; every returned value is compared with a fresh translation of the edited workbook')
     C.proof_obligations(R, 'theories/Props/C04.v', 'Props.C04', TARGETS)
-    if any('build failed' in b for b in R.broken):
+    if any('Coq build failed' in b for b in R.broken):
         return
     n = 150 if tier == 'quick' else 2000
     recipes = corpus()
